@@ -47,6 +47,9 @@ impl<'t> World<'t> {
         {
             // legitimately expensive (e.g. a loop counter of 50 000 means 50 000 states): not requested
             self.bump("heavy_term_queries_skipped");
+            if self.on(Prop::C19) && matches!(st.op, Compile | TryCompile | Closure) && !info.big {
+                self.tiny_term_liveness(mi, e, &info)?;
+            }
             self.push_obs(ci, st.op.name(), Obs::Nothing);
             return Ok(());
         }
@@ -836,8 +839,56 @@ impl<'t> World<'t> {
         if n >= 3 {
             self.sample(format!("{}({}) -> {} states, language equal to the reference ({} reference states, {} product pairs)", st.op.name(), show(e), n, nd, pairs));
         }
-        // spot check str_next / accepts on a steered string
+        // accepts() through every state: the access string of each automaton state, completed by
+        // a shortest string the reference accepts from there and by a shortest one it rejects
         let mut rng = Rng::new(self.salt(st));
+        if n <= 128 {
+            let mut first_pair: Vec<Option<usize>> = vec![None; n];
+            let mut keys: Vec<usize> = seen.iter().copied().collect();
+            keys.sort_unstable();
+            // the pair reached first in the walk is the one without a shorter predecessor chain;
+            // any pair of the state will do, take the one with the shortest access string
+            let access = |key: usize| -> Vec<u32> {
+                let mut w = Vec::new();
+                let mut k = key;
+                while let Some(&(p, c)) = pred.get(&k) {
+                    w.push(c);
+                    k = p;
+                }
+                w.reverse();
+                w
+            };
+            let mut best: Vec<Option<Vec<u32>>> = vec![None; n];
+            for key in keys {
+                let sa = key / nd;
+                let w = access(key);
+                if best[sa].as_ref().map_or(true, |b| w.len() < b.len()) {
+                    best[sa] = Some(w);
+                    first_pair[sa] = Some(key);
+                }
+            }
+            for sa in 0..n {
+                let (Some(w), Some(key)) = (best[sa].clone(), first_pair[sa]) else { continue };
+                let sd = (key % nd) as u32;
+                let from = d.rooted_at(sd);
+                for (want, tail) in [(true, from.shortest_accepted()), (false, from.shortest_rejected())] {
+                    let Some(tail) = tail else { continue };
+                    let mut cw = w.clone();
+                    cw.extend(self.instantiate(&tail, &mut rng));
+                    let s = smt_str(&cw);
+                    let acc = guarded(|| a.accepts(&s));
+                    self.eval(Prop::C02, "c02.accepts", d.fingerprint(), mix(5, mix(sa as u64, want as u64)), nontrivial(&info.dfa));
+                    let wt = self.show_str(&cw);
+                    self.judge(Prop::C02, "c02.accepts", acc == Ok(want), || {
+                        format!(
+                            "automaton of {} ({} states): accepts({}) = {:?}, expected {} (the string passes through state {})",
+                            show(e), n, wt, acc, want, sa
+                        )
+                    })?;
+                }
+            }
+        }
+        // spot check str_next / accepts on a steered string
         for accept in [true, false] {
             if let Some(w) = d.steered(&mut rng, accept, 8) {
                 let cw = self.instantiate(&w, &mut rng);
@@ -854,6 +905,52 @@ impl<'t> World<'t> {
     }
 
     // ---- C19: closure and bounds ----------------------------------------------------------
+
+    /// Bounded liveness for "iter_derivatives terminates": a term that failed the sizing probe
+    /// although it is tiny by every measure the reference model has (few distinct sub-terms, small
+    /// counters, few classes, at most 16 residual languages) is enumerated up to DEEP_CAP = 20 000
+    /// derivatives in a scratch manager. More than that many derivatives, none of them much larger
+    /// than the term itself, for a language with at most 16 residuals is reported. On the unchanged
+    /// tree no such term fails the sizing probe (600 derivatives) in the first place: the counter
+    /// c19.tiny_terms_deep_probed stayed at 0 over 300 000 runs, so the cap is 33 times beyond a
+    /// bound that is itself never reached.
+    fn tiny_term_liveness(&mut self, mi: usize, e: RegLan, info: &Arc<TermInfo>) -> Result<(), Stop> {
+        let small_dfa = matches!(&info.dfa, Some(d) if d.fin.len() <= 16);
+        if !small_dfa || info.size > 16 || info.cost > 400 || e.num_deriv_classes() > 8 {
+            return Ok(());
+        }
+        if max_counter(e, &mut std::collections::HashSet::new()) > 6 {
+            return Ok(());
+        }
+        if self.mgrs[mi].deep_done.contains(&key(e)) {
+            return Ok(());
+        }
+        self.mgrs[mi].deep_done.insert(key(e));
+        self.bump("c19.tiny_terms_deep_probed");
+        match deep_probe(e) {
+            Deep::Closed(n) => {
+                let cur = self.out.stats.get("c19.tiny_max_closure").copied().unwrap_or(0);
+                if n as u64 > cur {
+                    self.out.stats.insert("c19.tiny_max_closure", n as u64);
+                }
+                Ok(())
+            }
+            Deep::Grew | Deep::Panicked => {
+                self.bump("c19.tiny_terms_deep_probe_no_verdict");
+                Ok(())
+            }
+            Deep::Overflow => {
+                let states = info.dfa.as_ref().map(|d| d.fin.len()).unwrap_or(0);
+                self.eval(Prop::C19, "c19.closure-terminates", fp(&info.dfa), 1, true);
+                self.judge(Prop::C19, "c19.closure-terminates", false, || {
+                    format!(
+                        "iter_derivatives({}) yields more than {} distinct derivatives, all about as small as the term, although the language has only {} residuals and the term has {} sub-terms and no counter above 6: the enumeration does not terminate in any reasonable bound",
+                        show(e), DEEP_CAP, states, info.size
+                    )
+                })
+            }
+        }
+    }
 
     fn q_closure(&mut self, ci: usize, st: &Step, e: RegLan, info: &Arc<TermInfo>) -> Result<(), Stop> {
         let mi = self.clients[ci].mgr;
